@@ -122,14 +122,160 @@ def shapes(thorough):
 
 def add(rep, thorough):
     import multiprocessing as mp
-    global PROG
+    global PROG, WHOLE
     PROG = build_program()
-    tasks = shapes(thorough); t0 = time.time()
+    wp, wparams, cv = build_whole_program(); WHOLE = (wp, wparams)
+    rep.functions.append(cv.info())
+    tasks = shapes(thorough); wtasks = whole_shapes(thorough); t0 = time.time()
     with mp.Pool(min(vlib.NCORES, 16)) as pool:
         res = pool.map(one_shape, tasks, chunksize=1)
+        res += pool.map(whole_case, wtasks, chunksize=1)
     flat = [o for r in res for o in r]
     rep.add_group("E3-rational (exact execution of the GOTO program, exact piecewise-polynomial oracle)", len(flat), sum(1 for o in flat if o[1]), time.time() - t0,
                   bounded="enumerated shapes (order, knot vector, kernel); exact rational arithmetic on each", name="C14-transfer-matrix-exact")
     for o in flat:
         if not o[1]: rep.add_violation("C14-transfer-matrix-exact", o[0].replace(" ", "_")[:150], o[0] + ": " + o[2], trace=o[2])
     rep.samples += [o[0] for o in flat[:2]]
+
+# ---------------------------------------------------------------------------------------------------
+# whole splinetable::convolve(), extracted (tools/units.py convolve_function) and executed exactly
+def build_whole_program():
+    fa = units.free_function(units.CONVOLVE_CPP, "factorial")
+    dv = units.free_function(units.CONVOLVE_CPP, "divdiff")
+    cb = units.free_function(units.CONVOLVE_CPP, "convoluted_blossom")
+    r = X.Rules()
+    cb.body = r.sub("R13_vector_to_vla", r"std::vector<double>\s+fun_x\(nx\),\s*fun_y\(ny\);", "double fun_x[nx], fun_y[ny];", cb.body, must_fire=True)
+    cb.body = r.sub("R13_data", r"\.data\(\)", "", cb.body, must_fire=True)
+    cv = units.convolve_function()
+    text = units.CONVOLVE_PRELUDE + fa.text(None) + dv.text(None) + cb.text(None) + cv.text(None)
+    prog = G.Program.compile(text, vlib.workdir(), "c14whole")
+    params = {f.name: E.param_names(f.header, f.name) for f in (fa, dv, cb, cv)}
+    return prog, params, cv
+
+def install_storage_hooks(it, log):
+    F = lambda q: G.FV(Fr(q), Fr(q))
+    def h_new(it_, a): return G.Ptr(it_.new_obj("new", a[1]), 0)
+    def h_alloc(it_, a):
+        o = it_.new_obj("alloc", a[1]); log.append(("allocate", o, a[1])); return G.Ptr(o, 0)
+    def h_dealloc(it_, a):
+        p, n = a
+        if p.obj is None or p.off != 0 or len(p.obj.cells) != n: raise G.MemError("deallocate(%r, %d): not the start / not the size of an allocation (object has %d elements)" % (p, n, len(p.obj.cells) if p.obj else -1))
+        if not p.obj.live: raise G.MemError("double deallocate")
+        p.obj.live = False; log.append(("deallocate", p.obj, n))
+    def h_sort(it_, a):
+        f, l = a
+        if f.obj is not l.obj: raise G.MemError("sort range spans objects")
+        seg = f.obj.cells[f.off:l.off]
+        if any(c is None for c in seg): raise G.ExecError("sort of uninitialised data")
+        f.obj.cells[f.off:l.off] = sorted(seg, key=lambda v: v.num)
+    def h_copy(it_, a):
+        f, l, o = a
+        n = l.off - f.off
+        if f.obj is not l.obj or n < 0: raise G.MemError("copy range")
+        if o.off < 0 or o.off + n > len(o.obj.cells) or not o.obj.live or not f.obj.live or f.off < 0 or l.off > len(f.obj.cells): raise G.MemError("std::copy out of bounds (%d elements into %s[%d..] of size %d)" % (n, o.obj.name, o.off, len(o.obj.cells)))
+        o.obj.cells[o.off:o.off + n] = f.obj.cells[f.off:l.off]; return G.Ptr(o.obj, o.off + n)
+    def h_fill(it_, a):
+        p, n, v = a
+        if p.off + n > len(p.obj.cells): raise G.MemError("fill_n out of bounds")
+        for i in range(n): p.obj.cells[p.off + i] = v
+    it.hooks.update(vp_new=h_new, vp_allocate=h_alloc, vp_deallocate=h_dealloc, vp_sort_double=h_sort, vp_copy=h_copy, vp_fill_n=h_fill)
+
+def whole_case(args):
+    orders, nks, dim, y = args; t0 = time.time(); nd = len(orders)
+    tag = "convolve() orders=%s nknots=%s dim=%d kernel=%s" % (list(orders), list(nks), dim, [str(v) for v in y])
+    try:
+        prog, params = WHOLE
+        dom = RatDom(); it = G.Interp(prog, dom); it.prog_params = params; log = []
+        install_storage_hooks(it, log)
+        F = lambda q: G.FV(Fr(q), Fr(q))
+        ts = []
+        for d in range(nd):
+            t = [Fr(d, 3)]
+            for m in range(1, nks[d]): t.append(t[-1] + Fr(1 + ((m + d) * (m + 1)) % 3, 2))
+            ts.append(t)
+        naxes = [nks[d] - orders[d] - 1 for d in range(nd)]
+        strides = [1] * nd
+        for d in range(nd - 2, -1, -1): strides[d] = strides[d + 1] * naxes[d + 1]
+        ncoef = strides[0] * naxes[0]
+        coefs = [Fr(((i * 7 + 3) % 11) - 4, 3) for i in range(ncoef)]
+        kobjs = []
+        for d in range(nd):
+            o = it.new_obj("knots%d" % d, nks[d] + 2 * orders[d]); log.append(("allocate", o, len(o.cells)))
+            for m in range(nks[d]): o.cells[orders[d] + m] = F(ts[d][m])
+            for m in range(orders[d]): o.cells[m] = F(-999 - m); o.cells[orders[d] + nks[d] + m] = F(999 + m)
+            kobjs.append(o)
+        cobj = it.new_obj("coefficients", ncoef); cobj.cells = [F(c) for c in coefs]
+        it.set_global("ndim", nd)
+        it.set_global("order", G.Ptr(it.array("order", list(orders)), 0)); it.set_global("nknots", G.Ptr(it.array("nknots", list(nks)), 0))
+        it.set_global("knots", G.Ptr(it.array("knotptrs", [G.Ptr(kobjs[d], orders[d]) for d in range(nd)]), 0))
+        it.set_global("vp_this_naxes", G.Ptr(it.array("naxes", list(naxes)), 0)); it.set_global("vp_this_strides", G.Ptr(it.array("strides", list(strides)), 0))
+        it.set_global("vp_this_coefficients", G.Ptr(cobj, 0))
+        exts = [it.array("ext%d" % d, [F(ts[d][orders[d]]), F(ts[d][naxes[d]])]) for d in range(nd)]
+        it.set_global("extents", G.Ptr(it.array("extents", [G.Ptr(e, 0) for e in exts]), 0))
+        yo = it.array("conv_knots", [F(v) for v in y])
+        it.call("convolve", [dim, G.Ptr(yo, 0), len(y)])
+        # ---- read the table back
+        bad = []
+        g = lambda n: it.globals[n].cells[0]
+        new_order = g("order").obj.cells; new_nk = g("nknots").obj.cells; new_na = g("vp_this_naxes").obj.cells; new_st = g("vp_this_strides").obj.cells
+        n_conv = len(y); convorder = orders[dim] + n_conv - 1
+        rho = sorted(a + b for a in ts[dim] for b in y)
+        want_order = list(orders); want_order[dim] = convorder
+        want_nk = list(nks); want_nk[dim] = len(rho)
+        if list(new_order) != want_order: bad.append("orders %s, expected %s" % (new_order, want_order))
+        if list(new_nk) != want_nk: bad.append("knot counts %s, expected %s" % (new_nk, want_nk))
+        want_na = [want_nk[d] - want_order[d] - 1 for d in range(nd)]
+        if list(new_na) != want_na: bad.append("coefficient counts per dimension %s, expected nknots-order-1 = %s" % (new_na, want_na))
+        want_st = [1] * nd
+        for d in range(nd - 2, -1, -1): want_st[d] = want_st[d + 1] * want_na[d + 1]
+        if list(new_st) != want_st: bad.append("strides %s, expected %s (well-formedness)" % (new_st, want_st))
+        kp = g("knots").obj.cells; newknots = []
+        for d in range(nd):
+            p = kp[d]
+            if not p.obj.live: bad.append("dimension %d: knot storage is a freed object" % d); newknots.append(None); continue
+            if p.off != want_order[d] or len(p.obj.cells) != want_nk[d] + 2 * want_order[d]: bad.append("dimension %d: knot storage is not allocate(nknots+2*order)+order (offset %d, size %d)" % (d, p.off, len(p.obj.cells)))
+            vals = [c.num if c is not None else None for c in p.obj.cells[p.off:p.off + want_nk[d]]]
+            newknots.append(vals)
+            if vals != (rho if d == dim else ts[d]): bad.append("dimension %d: knot vector %s" % (d, "is not the sorted pairwise sums" if d == dim else "changed"))
+        cp = g("vp_this_coefficients")
+        ncoef_new = want_st[0] * want_na[0]
+        if not cp.obj.live or cp.off != 0 or len(cp.obj.cells) != ncoef_new: bad.append("coefficient storage has %d elements, expected %d" % (len(cp.obj.cells), ncoef_new))
+        leaked = [o for (k, o, n) in log if k == "allocate" and o.live and o is not cp.obj and all(o is not p.obj for p in kp)]
+        if leaked: bad.append("%d allocator blocks neither released nor owned by the table" % len(leaked))
+        # ---- the function: new table == (old table convolved along dim), exactly, at sample points
+        if not bad:
+            newc = [c.num for c in cp.obj.cells]
+            import random
+            rnd = random.Random(1234); npts = 0
+            ivs = [(a, b) for a, b in zip(rho, rho[1:]) if a != b]
+            for (a, b) in ivs[:: max(1, len(ivs) // 6)]:
+                x = []
+                for d in range(nd):
+                    if d == dim: x.append(a + (b - a) * Fr(rnd.randint(1, 6), 7))
+                    else:
+                        m = rnd.randint(0, nks[d] - 2); x.append(ts[d][m] + (ts[d][m + 1] - ts[d][m]) * Fr(rnd.randint(1, 4), 5))
+                lhs = Fr(0); rhs = Fr(0)
+                basis_new = [[bspl(rho if d == dim else ts[d], i, want_order[d], x[d]) for i in range(want_na[d])] for d in range(nd)]
+                for idx in itertools.product(*[range(n) for n in want_na]):
+                    tterm = newc[sum(i * s for i, s in zip(idx, want_st))]
+                    for d in range(nd): tterm *= basis_new[d][idx[d]]
+                    lhs += tterm
+                conv_b = [exact_convolution(ts[dim], j, orders[dim], y, x[dim]) for j in range(naxes[dim])]
+                basis_old = [[bspl(ts[d], i, orders[d], x[d]) for i in range(naxes[d])] if d != dim else conv_b for d in range(nd)]
+                for idx in itertools.product(*[range(n) for n in naxes]):
+                    tterm = coefs[sum(i * s for i, s in zip(idx, strides))]
+                    for d in range(nd): tterm *= basis_old[d][idx[d]]
+                    rhs += tterm
+                npts += 1
+                if lhs != rhs:
+                    bad.append("at x=%s the convolved table gives %s, the exact convolution %s" % ([str(v) for v in x], lhs, rhs)); break
+        return [(tag + " whole convolve(): well-formed result that equals the exact convolution", not bad, "; ".join(bad)[:600], time.time() - t0)]
+    except Exception as ex:
+        return [(tag + " execution [%s]" % str(ex)[:80], False, "%s: %s" % (type(ex).__name__, ex), time.time() - t0)]
+
+WHOLE = None
+def whole_shapes(thorough):
+    k2 = [Fr(-1, 2), Fr(1, 2)]; k3 = [Fr(0), Fr(1, 3), Fr(5, 4)]; k4 = [Fr(-1), Fr(-1, 4), Fr(1, 2), Fr(2)]
+    out = [((1,), (5,), 0, k3), ((0,), (4,), 0, k2), ((2,), (7,), 0, k2), ((1, 2), (4, 6), 0, k2), ((1, 2), (4, 6), 1, k3), ((1, 0, 1), (4, 3, 5), 2, k2), ((1, 1, 0), (4, 5, 3), 1, k3)]
+    if thorough: out += [((2,), (7,), 0, k4), ((3,), (9,), 0, k3), ((1, 1, 1, 0), (4, 4, 5, 3), 3, k2), ((2, 1), (6, 4), 0, k3), ((0, 2, 1), (3, 6, 4), 0, k3)]
+    return out
